@@ -189,6 +189,13 @@ def run_history(case, ctx=None):
             r_last = guarded(run_dispatch, files,
                              os.path.join(tmp, f"out{i}"), wf, model_in)
             if r_last[0] != "ok":
+                if i < len(pv) - 1:
+                    # an intermediate prefix of the data cannot be learned
+                    # at all (a partial view - C01's subject): no model file,
+                    # nothing to compare
+                    if ctx:
+                        ctx.count("intermediate_chunk_not_learnable_(C01)")
+                    return
                 break
             model_in = r_last[1][1]
         if r_all[0] != "ok" or r_last[0] != "ok":
